@@ -21,10 +21,12 @@ def _gen(ck, tier, wd, seed, nprob):
     probs = [r for r in rows if r["kind"] == "problem"]
     rnd = random.Random(seed)
     one = [p for p in probs if len(p["p"]["axes"]) == 1]
-    more = [p for p in probs if len(p["p"]["axes"]) > 1]
-    rnd.shuffle(one)
-    rnd.shuffle(more)
-    pick = one[: nprob // 2] + more[: nprob - nprob // 2]
+    two = [p for p in probs if len(p["p"]["axes"]) == 2]
+    three = [p for p in probs if len(p["p"]["axes"]) == 3]
+    for l in (one, two, three):
+        l.sort(key=lambda p: json.dumps(p, sort_keys=True))
+        rnd.shuffle(l)
+    pick = one[: nprob * 2 // 5] + two[: nprob * 2 // 5] + three[: nprob // 5]
     af, pf = os.path.join(wd, "axes.ndjson"), os.path.join(wd, "problems.ndjson")
     vlib.write_ndjson(af, axes)
     vlib.write_ndjson(pf, pick)
@@ -46,7 +48,10 @@ def _judge(ck, log, rows, label, info_kinds=()):
             info[d["kind"]] = info.get(d["kind"], 0) + 1
             continue
         pr = ev.get("problem", {})
-        ck.violation({"class": d["kind"], "ndim": ev.get("ndim"), "variant": ev.get("variant"), "monodim": ev.get("monodim"),
+        other = None
+        if ev.get("monodim") is not None and pr.get("lam"):
+            other = any(l > 0 for i, l in enumerate(pr["lam"]) if i != ev["monodim"])
+        ck.violation({"class": d["kind"], "ndim": ev.get("ndim"), "variant": ev.get("variant"), "monodim": ev.get("monodim"), "other_dim_smoothing": other,
                       "orders_axes": pr.get("axes"), "lam": pr.get("lam"), "pens": pr.get("pens")},
                      {"what": d["kind"], "event": {k: ev[k] for k in ev if k not in ("ranks", "a", "g")}})
     return info
